@@ -20,7 +20,16 @@ import (
 
 type Rand struct{ s uint64 }
 
-func NewRand(seed uint64) *Rand { return &Rand{s: seed*0x9E3779B97F4A7C15 + 0x1234567} }
+// NewRand seeds the generator through a full avalanche of the seed: with the raw
+// splitmix64 state (seed*gamma + c) consecutive seeds would produce the same stream
+// shifted by one draw, so VERIF_SEED=1,2,3 would explore nearly the same cases.
+func NewRand(seed uint64) *Rand {
+	z := seed + 0x632BE59BD9B4E019
+	z = (z ^ (z >> 30)) * 0xBF58476D1CE4E5B9
+	z = (z ^ (z >> 27)) * 0x94D049BB133111EB
+	z ^= z >> 31
+	return &Rand{s: z}
+}
 
 func (r *Rand) U64() uint64 {
 	r.s += 0x9E3779B97F4A7C15
